@@ -5,6 +5,8 @@ import (
 	"encoding/xml"
 	"fmt"
 	"strings"
+
+	"github.com/zerx-lab/wordZero/pkg/style"
 )
 
 // TOCConfig 目录配置
@@ -94,6 +96,7 @@ func (d *Document) GenerateTOC(config *TOCConfig) error {
 
 	// 完成目录SDT构建
 	tocSDT.FinalizeTOCSDT()
+	d.ensureTOCStyles(tocSDT)
 
 	// 添加到文档中
 	d.Body.Elements = append(d.Body.Elements, tocSDT)
@@ -181,6 +184,7 @@ func (d *Document) UpdateTOC() error {
 
 	// 完成目录SDT构建
 	tocSDT.FinalizeTOCSDT()
+	d.ensureTOCStyles(tocSDT)
 
 	// 更新文档中的SDT
 	d.Body.Elements[tocIndex] = tocSDT
@@ -777,9 +781,36 @@ func (d *Document) createWordFieldTOC(config *TOCConfig, entries []TOCEntry) []i
 	}
 
 	tocSDT.Content.Elements = append(tocSDT.Content.Elements, endPara)
+	d.ensureTOCStyles(tocSDT)
 	elements = append(elements, tocSDT)
 
 	return elements
+}
+
+// ensureTOCStyles 确保目录内容控件中的段落引用的预定义样式（目录样式 12-21、结束段落的 Heading1）
+// 在样式管理器中存在。这些样式未被使用时可以被 RemoveStyle 移除；目录生成时不检查就引用它们，
+// 保存后 w:pStyle 指向样式表中没有定义的ID。缺少的样式按预定义的定义重新注册，已有的（包括修改过的）不动。
+func (d *Document) ensureTOCStyles(tocSDT *SDT) {
+	if tocSDT == nil || tocSDT.Content == nil || d.styleManager == nil {
+		return
+	}
+	var predefined *style.StyleManager
+	for _, element := range tocSDT.Content.Elements {
+		p, ok := element.(*Paragraph)
+		if !ok || p == nil || p.Properties == nil || p.Properties.ParagraphStyle == nil {
+			continue
+		}
+		id := p.Properties.ParagraphStyle.Val
+		if id == "" || d.styleManager.StyleExists(id) {
+			continue
+		}
+		if predefined == nil {
+			predefined = style.NewStyleManager()
+		}
+		if st := predefined.GetStyle(id); st != nil {
+			d.styleManager.AddStyle(st)
+		}
+	}
 }
 
 // createTOCEntryWithFields 创建带域字段的目录条目
